@@ -401,7 +401,7 @@ c06_names!(c06_enclosed_len3, 0, 3, -1, 5);
 // @h prop=C06 tier=thorough t=900 mem=10 name=c06_enclosed_len4_a
 c06_names!(c06_enclosed_len4_a, 0, 4, 0, 6);
 /// C06 enclosed_name, names of length 4 starting with '.'.
-// @h prop=C06 tier=thorough t=900 mem=10 name=c06_enclosed_len4_dot
+// @h prop=C06,C07 tier=quick t=900 mem=10 name=c06_enclosed_len4_dot
 c06_names!(c06_enclosed_len4_dot, 0, 4, 1, 6);
 /// C06 enclosed_name, names of length 4 starting with '/'.
 // @h prop=C06 tier=thorough t=900 mem=10 name=c06_enclosed_len4_slash
